@@ -9,12 +9,14 @@ mod obs;
 mod offsets;
 mod enc;
 mod vcd;
+mod fstw;
 
 fn dispatch(cmd: &str, args: &[&str]) -> String {
     match cmd {
         "offsets" => offsets::run(args),
         "enc" => enc::run(args),
         "body" => vcd::run_body(args),
+        "fstw" => fstw::run(args),
         "vcd" => vcd::run_vcd(args),
         _ => "UNSUPPORTED".to_string(),
     }
